@@ -81,9 +81,9 @@ def run_mvdr(key):
         atf, psd = a[0], Phi
     else:
         atf, psd = a, Phi
-    atf = np.ascontiguousarray(atf)
+    atf = A.relayout(atf, key.get('layout', 'C'))
     atf.setflags(write=False)
-    psd = np.ascontiguousarray(psd)
+    psd = A.relayout(psd, key.get('layout', 'C'))
     psd.setflags(write=False)
     try:
         w = bf.get_mvdr_vector(atf, psd)
@@ -133,6 +133,7 @@ def run_lcmv(key):
     a = steering(seed, K, F, D, 'generic' if sk == 'basis' and K > 1 else sk)
     Phi, cond = noise_psd(seed, F, D, nk)
     r = np.array(resp[:K], dtype=float)
+    a, Phi = A.relayout(a, key.get('layout', 'C')), A.relayout(Phi, key.get('layout', 'C'))
     a.setflags(write=False)
     Phi.setflags(write=False)
     try:
@@ -174,6 +175,7 @@ def run_souden_wmwf(key):
     a = steering(seed, 1, F, D, sk)[0]
     Pnn, cond = noise_psd(seed, F, D, nk)
     Pxx = np.stack([sigma * (1 + f) * np.outer(a[f], a[f].conj()) for f in range(F)])
+    Pxx, Pnn = A.relayout(Pxx, key.get('layout', 'C')), A.relayout(Pnn, key.get('layout', 'C'))
     Pxx.setflags(write=False)
     Pnn.setflags(write=False)
     rt = 1e-12 * cond * 1e3 + 1e-10
@@ -276,12 +278,15 @@ def subchecks(tier, seed):
                                         continue
                                     if stack == 'bins' and K > 1:
                                         continue
-                                    yield (D, F, K, sk, nk, stack, 1.0, 1.0, seed)
+                                    yield (D, F, K, sk, nk, stack, 1.0, 1.0, 'C', seed)
+                                    if sk == 'generic' and D == 3 and nk in ('1000.0', 'sinc_real') and stack != 'single':
+                                        for lay in A.LAYOUTS[1:]:
+                                            yield (D, F, K, sk, nk, stack, 1.0, 1.0, lay, seed)
                                     if sk == 'generic' and D in (2, 5):
                                         for a_s, p_s in ((1e-6, 1.0), (1.0, 1e12), (1e6, 1e-12), (1e-8, 1e8), (1e100, 1.0),
                                                          (1.0, 1e-100)):
-                                            yield (D, F, K, sk, nk, stack, a_s, p_s, seed)
-    subs.append(Sub('mvdr', ('D', 'F', 'K', 'steer', 'noise', 'stack', 'a_scale', 'p_scale', 'seed'),
+                                            yield (D, F, K, sk, nk, stack, a_s, p_s, 'C', seed)
+    subs.append(Sub('mvdr', ('D', 'F', 'K', 'steer', 'noise', 'stack', 'a_scale', 'p_scale', 'layout', 'seed'),
                     mvdr_cases, run_mvdr))
 
     def lcmv_cases():
@@ -292,8 +297,11 @@ def subchecks(tier, seed):
                         for sk in ('generic', 'generic1e3'):
                             for nk in noises:
                                 for resp in ((1, 0, 0), (0, 1, 0.5), (-1, 0.25, 1), (0.5, 0.5, 0.5)):
-                                    yield (D, F, K, sk, nk, resp, seed)
-    subs.append(Sub('lcmv', ('D', 'F', 'K', 'steer', 'noise', 'resp', 'seed'), lcmv_cases, run_lcmv))
+                                    yield (D, F, K, sk, nk, resp, 'C', seed)
+                                    if D == 3 and nk in ('1000.0', 'sinc_real') and resp[0] == -1:
+                                        for lay in A.LAYOUTS[1:]:
+                                            yield (D, F, K, sk, nk, resp, lay, seed)
+    subs.append(Sub('lcmv', ('D', 'F', 'K', 'steer', 'noise', 'resp', 'layout', 'seed'), lcmv_cases, run_lcmv))
 
     def sw_cases():
         for seed in seeds_:
@@ -304,7 +312,10 @@ def subchecks(tier, seed):
                             for sigma in (1e-3, 1.0, 1e3):
                                 for ref in ('each', 'auto'):
                                     for mu in (0.0, 0.5, 1.0, 100.0):
-                                        yield (D, F, sk, nk, sigma, ref, mu, seed)
-    subs.append(Sub('souden_wmwf', ('D', 'F', 'steer', 'noise', 'sigma', 'ref', 'mu', 'seed'), sw_cases,
+                                        yield (D, F, sk, nk, sigma, ref, mu, 'C', seed)
+                                        if D == 3 and sk == 'generic' and nk in ('1000.0', 'sinc_real') and sigma == 1.0:
+                                            for lay in A.LAYOUTS[1:]:
+                                                yield (D, F, sk, nk, sigma, ref, mu, lay, seed)
+    subs.append(Sub('souden_wmwf', ('D', 'F', 'steer', 'noise', 'sigma', 'ref', 'mu', 'layout', 'seed'), sw_cases,
                     run_souden_wmwf))
     return subs
